@@ -76,7 +76,8 @@ Definition visible (s : state) := (pv s, bv s, (tr_wrap s, tr_seed s, tr_leaf s,
 Inductive oop := OExport | OExportNoBn | OSummary | OCost | OGetCost (n : string)
                | OSetSpec (s : specid) | OForward | OTrainStep | OFlip
                | OSetOpt (d h g : option bool) (t : option Z)
-               | OSetTrain (m : tmode).
+               | OSetTrain (m : tmode)
+               | OSetMode (b : bool) | OWrite | OBackward | OStep.
 Definition is_observer (o : oop) : bool :=
   match o with OExport | OExportNoBn | OSummary | OCost | OGetCost _ => true | _ => false end.
 
@@ -165,6 +166,19 @@ Definition train_step (c : config) (s : state) : state * obs :=
   let o := snd (forward c s) in
   (mkSt (pv s1 + 1) (bv s1) (tr_wrap s1) (tr_seed s1) (tr_leaf s1) (tr_sub s1) (th s1) (opt s1) (trn s1) (rng s1) (spec s1) (polluted s1 || pollutes c), o).
 
+(* the two halves of a search step, so that observers can be called between backward() and optimizer.step():
+   forward + loss + backward (sampling, BatchNorm statistics and random stream as in a forward; gradients stored) ... *)
+Definition backward (c : config) (s : state) : state * obs :=
+  let s1 := fst (forward c s) in
+  (mkSt (pv s1) (bv s1) (tr_wrap s1) (tr_seed s1) (tr_leaf s1) (tr_sub s1) (th s1) (opt s1) (trn s1) (rng s1) (spec s1) (polluted s1 || pollutes c),
+   snd (forward c s)).
+(* ... and the update of the parameters; also: parameter values written directly / through load_state_dict (no forward) *)
+Definition write (s : state) : state * obs :=
+  (mkSt (pv s + 1) (bv s) (tr_wrap s) (tr_seed s) (tr_leaf s) (tr_sub s) (th s) (opt s) (trn s) (rng s) (spec s) (polluted s), OOk).
+(* wrapper.train(b) / wrapper.eval(): every module gets the flag *)
+Definition set_mode (s : state) (b : bool) : state * obs :=
+  (mkSt (pv s) (bv s) b b b b (th s) (opt s) (trn s) (rng s) (spec s) (polluted s), OOk).
+
 Definition cost (c : config) (s : state) : state * obs :=
   match spec s with
   | SingleA => cost_of c s MA
@@ -215,6 +229,10 @@ Definition step (v : version) (c : config) (s : state) (o : oop) : state * obs :
   | OFlip => flip s
   | OSetOpt d h g t => set_opt c s d h g t
   | OSetTrain m => set_train s m
+  | OSetMode b => set_mode s b
+  | OWrite => write s
+  | OBackward => backward c s
+  | OStep => write s
   end.
 
 Fixpoint run (v : version) (c : config) (s : state) (ops : list oop) : state :=
